@@ -5,6 +5,7 @@ import Gk.DrvCron
 import Gk.DrvDisp
 import Gk.DrvPool
 import Gk.DrvSched
+import Gk.DrvSchedCron
 import Gk.DrvLin
 open Gk
 
@@ -100,18 +101,18 @@ partial def loopPool (h : IO.FS.Stream) (s : DrvPool.S) (n hist nt bad : Nat) : 
     for o in outs do IO.println s!"L{n + 1} {o}"
     loopPool h s' (n + 1) hist nt (bad + outs.length)
 
-partial def loopSched (h : IO.FS.Stream) (s : DrvSched.S) (n hist nt bad : Nat) : IO Unit := do
+partial def loopSched (h : IO.FS.Stream) (s : DrvSchedCron.S) (n hist nt bad : Nat) : IO Unit := do
   let line ← h.getLine
   if line.isEmpty then
-    IO.println s!"SUMMARY family=sched lines={n} histories={hist} nontrivial={nt} ops={s.ops} flagged={bad}"
+    IO.println s!"SUMMARY family=sched lines={n} histories={hist} nontrivial={nt} ops={s.m.ops} flagged={bad}"
     return
   let toks := Proto.tokens line
   match toks with
   | [] => loopSched h s (n + 1) hist nt bad
-  | ["end"] => loopSched h s (n + 1) (hist + 1) (nt + (if s.nontrivial then 1 else 0)) bad
+  | ["end"] => loopSched h s (n + 1) (hist + 1) (nt + (if s.m.nontrivial then 1 else 0)) bad
   | _ =>
     let (req, resp) := Proto.splitArrow toks
-    let (s', outs) := DrvSched.stepLine s req resp
+    let (s', outs) := DrvSchedCron.stepLine s req resp
     for o in outs do IO.println s!"L{n + 1} {o}"
     loopSched h s' (n + 1) hist nt (bad + outs.length)
 
